@@ -237,6 +237,20 @@ def run_case(case, tier="quick"):
                     return violation("getter_after_fault", f"{cls}: not solved after {where}, but {bad} returned data", labels, facts=dict(facts, pos=pos, kind=kind))
                 if statuses[pos] != "kOptimal" and solved0:
                     hits_below_opt = True
+                # a second solve() on the same object, now without faults: whatever it reports as solved must be the true optimum
+                # (an inconclusive run must not have been memoised as "this k is infeasible")
+                if cls in MINS + ["MinGenSet"] and kind == "kTimeLimit":
+                    try:
+                        guarded(m2.solve)
+                        s3 = _is_solved(m2)
+                        o3 = guarded(measure2, m2) if s3 else None
+                    except Crash as c:
+                        return violation("crash_on_second_solve", f"{cls}: second solve() after {where} raised {c}", labels, site=c.site, facts=dict(facts, pos=pos, kind=kind))
+                    if s3 and solved0 and o3 != obj0:
+                        return violation("non_minimal_after_retry", f"{cls}: fault-free optimum {obj0}; after {where} (unsolved) a second solve() on the same object reports solved with {o3}", labels, facts=dict(facts, pos=pos, kind=kind))
+                    if s3 and not solved0:
+                        return violation("solved_only_after_fault", f"{cls}: unsolved without faults, but a second solve() after {where} reports solved ({o3})", labels, facts=dict(facts, pos=pos, kind=kind))
+                    labels.add("second_solve")
                 continue
             # solved under a fault
             if cls in K_CLASSES:
